@@ -61,7 +61,8 @@ EXTRA = {
         "single consumer thread; no concurrent modification of the files",
         "the pinned frame table is a canonical abstraction of the source (harness/extract.py item with_frames): callee "
         "names and the kind of each positional argument (<param> / <local> / nested call) of with-items, opener calls, "
-        "close calls, yields and write/save calls; keyword arguments, literal arguments (file modes), the tests of "
+        "close calls, yields and write/save calls (a local all of whose assignments are possibly conditional copies / path "
+        "conversions of ONE parameter counts as that parameter); keyword arguments, literal arguments (file modes), the tests of "
         "conditional expressions, with-items rooted at a local that are neither an opener nor closing(...), and all "
         "other statements are NOT in the table; a module-private helper that only returns opener / nullcontext "
         "expressions is followed one level. What the table drops (e.g. which branch of `open(..) if .. else "
